@@ -425,8 +425,7 @@ Theorem concat_splits : forall kl,
 Proof.
   intros kl Hw Hnd. unfold import, import_with.
   rewrite (filter_all_true _ _ (exports_not_trust kl)).
-  assert (Hso : forall n, strip_orphans (S n) (flat_map export kl) = flat_map export kl) by (intros n; destruct kl; reflexivity).
-  rewrite Hso, groups_exports. cbn [snd]. rewrite drop_skipped_kgroups.
+  rewrite groups_exports, drop_skipped_kgroups.
   rewrite import_keys_groups; auto.
 Qed.
 
